@@ -41,6 +41,17 @@ func gen(r *hlib.Rand, n int, tier, profile string, emit func(string, ...any)) {
 		cur := base
 		var live []int // threads that still have steps to do
 		left := map[int]int{}
+		full := map[int]int{}      // number of steps of an untouched thread
+		rcur := uint64(r.Intn(50)) // counters on the relay tunnel
+		var rsent []uint64
+		nextRelayCtr := func() uint64 {
+			if len(rsent) > 0 && r.Chance(1, 4) {
+				return rsent[r.Intn(len(rsent))] // the same envelope again
+			}
+			rcur += uint64(hlib.Pick(r, 1, 1, 1, 2, 70))
+			rsent = append(rsent, rcur)
+			return rcur
+		}
 		nround := r.Range(3, 25)
 		for k := 0; k < nround; k++ {
 			// a burst of packets arrives: fresh counters, wire duplicates of each other, replays of old ones
@@ -73,11 +84,18 @@ func gen(r *hlib.Rand, n int, tier, profile string, emit func(string, ...any)) {
 				case 9:
 					c = hlib.Pick(r, 0, 1, L, top, cur+L, cur+L+1)
 				}
-				kind := hlib.Pick(r, "valid", "valid", "valid", "valid", "relay", "relay", "forged", "relabel", "relayforged")
-				emit("pkt %d %d %s", tid, c, kind)
+				if r.Chance(1, 4) {
+					// the packet arrives inside a relay envelope (relay tunnel 1, then the end-to-end tunnel 0)
+					emit("npkt %d %d %d %s", tid, nextRelayCtr(), c, hlib.Pick(r, "ok", "ok", "ok", "ok", "outerforged", "innerforged"))
+					left[tid] = 6
+				} else {
+					kind := hlib.Pick(r, "valid", "valid", "valid", "valid", "relay", "relay", "forged", "relabel", "relayforged")
+					emit("pkt %d %d %s", tid, c, kind)
+					left[tid] = 3
+				}
+				full[tid] = left[tid]
 				sent = append(sent, c)
 				live = append(live, tid)
-				left[tid] = 3
 				tid++
 				ops++
 			}
@@ -90,14 +108,32 @@ func gen(r *hlib.Rand, n int, tier, profile string, emit func(string, ...any)) {
 				}
 				g := r.Range(2, 4)
 				var grp []int
+				rounds := 3
+				shape := r.Intn(5)
+				envelope := nextRelayCtr()
 				for j := 0; j < g; j++ {
-					emit("pkt %d %d %s", tid, c, hlib.Pick(r, "valid", "valid", "relay", "forged"))
+					switch {
+					case shape == 0: // copies of one relay packet (forwarding relay)
+						emit("pkt %d %d %s", tid, c, hlib.Pick(r, "relay", "relay", "relay", "relayforged"))
+					case shape == 1: // the same envelope duplicated on the wire
+						emit("npkt %d %d %d ok", tid, envelope, c)
+						rounds = 6
+					case shape == 2: // the same inner packet in different envelopes, and a direct copy of it
+						if j == 0 {
+							emit("pkt %d %d valid", tid, c)
+						} else {
+							emit("npkt %d %d %d %s", tid, nextRelayCtr(), c, hlib.Pick(r, "ok", "ok", "innerforged"))
+						}
+						rounds = 6
+					default:
+						emit("pkt %d %d %s", tid, c, hlib.Pick(r, "valid", "valid", "relay", "forged"))
+					}
 					grp = append(grp, tid)
 					tid++
 					ops++
 				}
 				sent = append(sent, c)
-				for round := 0; round < 3; round++ {
+				for round := 0; round < rounds; round++ {
 					for _, t := range grp {
 						emit("step %d", t)
 						ops++
@@ -109,7 +145,7 @@ func gen(r *hlib.Rand, n int, tier, profile string, emit func(string, ...any)) {
 			for j := 0; j < steps && len(live) > 0; j++ {
 				i := r.Intn(len(live))
 				t := live[i]
-				if left[t] == 3 && r.Chance(1, 5) {
+				if left[t] == full[t] && r.Chance(1, 5) {
 					emit("full %d", t)
 					left[t] = 0
 				} else {
@@ -204,23 +240,38 @@ func steady(r *hlib.Rand, emit func(string, ...any), ops *int, tid *int) {
 	*ops++
 }
 
-type thread struct {
-	ctr   uint64
-	relay bool
-	pkt   []byte
-	pc    int // 0 start, 1 checked, 2 opened, 3 done
-	nb    []byte
-	go1   chan struct{} // harness -> goroutine: perform the AEAD open
-	go2   chan struct{} // harness -> goroutine: return from DecryptDanger
-	auth  chan bool     // goroutine -> harness: AEAD result
-	done  chan string   // goroutine -> harness: result of Decrypt / VerifyRelay
+// layer is one envelope of a received packet: which tunnel it is checked on and by which function.
+type layer struct {
+	tunnel int
+	ctr    uint64
+	relay  bool // VerifyRelay (AD-only) rather than Decrypt
+	pkt    []byte
 }
 
-// gate is the tunnel's dKey: the real cipher state, with two parking places per call.
-type gate struct {
-	inner   noiseutil.CipherState
+type thread struct {
+	layers []layer
+	li     int // layer being processed
+	pc     int // 0 start, 1 checked, 2 opened (within the layer)
+	fin    bool
+	nb     []byte
+	go1    chan struct{} // harness -> goroutine: perform the AEAD open
+	go2    chan struct{} // harness -> goroutine: return from DecryptDanger
+	goNext chan struct{} // harness -> goroutine: go on to the carried packet (readOutsidePackets recursion)
+	auth   chan bool     // goroutine -> harness: AEAD result
+	passed chan int      // goroutine -> harness: layer acted upon, parked before the next one
+	done   chan string   // goroutine -> harness: final result
+}
+
+// gateCtl is shared by the receive ciphers of both tunnels.
+type gateCtl struct {
 	cur     *thread // the thread whose goroutine is running (nil: pass straight through)
 	entered chan *thread
+}
+
+// gate is a tunnel's dKey: the real cipher state, with two parking places per call.
+type gate struct {
+	inner noiseutil.CipherState
+	ctl   *gateCtl
 }
 
 func (g *gate) EncryptDanger(out, ad, plaintext []byte, n uint64, nb []byte) ([]byte, error) {
@@ -228,11 +279,11 @@ func (g *gate) EncryptDanger(out, ad, plaintext []byte, n uint64, nb []byte) ([]
 }
 func (g *gate) Overhead() int { return g.inner.Overhead() }
 func (g *gate) DecryptDanger(out, ad, ciphertext []byte, n uint64, nb []byte) ([]byte, error) {
-	th := g.cur
+	th := g.ctl.cur
 	if th == nil {
 		return g.inner.DecryptDanger(out, ad, ciphertext, n, nb)
 	}
-	g.entered <- th
+	g.ctl.entered <- th
 	<-th.go1
 	res, err := g.inner.DecryptDanger(out, ad, ciphertext, n, nb)
 	th.auth <- err == nil
@@ -244,109 +295,153 @@ const hang = 10 * time.Second
 
 func newExec(t *testing.T) func([]string) string {
 	l := slog.New(slog.NewTextHandler(io.Discard, &slog.HandlerOptions{Level: slog.LevelDebug}))
-	key := make([]byte, 32)
-	for i := range key {
-		key[i] = byte(i*11 + 3)
+	// one key per tunnel: 0 = end-to-end tunnel, 1 = relay tunnel
+	var keys [2][32]byte
+	for i := range keys[0] {
+		keys[0][i] = byte(i*11 + 3)
+		keys[1][i] = byte(i*5 + 9)
 	}
-	var key32 [32]byte
-	copy(key32[:], key)
-	mk := func() noiseutil.CipherState {
-		suite := noise.NewCipherSuite(noise.DH25519, noise.CipherAESGCM, noise.HashSHA256)
-		return noiseutil.NewCipherState(noise.UnsafeNewCipherState(suite, key32, 0), noise.CipherAESGCM)
+	suite := noise.NewCipherSuite(noise.DH25519, noise.CipherAESGCM, noise.HashSHA256)
+	mk := func(T int) noiseutil.CipherState {
+		return noiseutil.NewCipherState(noise.UnsafeNewCipherState(suite, keys[T], 0), noise.CipherAESGCM)
 	}
-	// the sender's side of the tunnel: same key; sealed with the raw AEAD so that a (buggy or hostile)
-	// peer may use any 64-bit counter, including ones its own send ceiling would refuse
-	blk, _ := aes.NewCipher(key)
-	peerAEAD, _ := cipher.NewGCM(blk)
-	seal := func(dst, ad, plaintext []byte, n uint64) []byte {
+	// the senders' side: same keys; sealed with the raw AEAD so that a (buggy or hostile) peer may use
+	// any 64-bit counter, including ones its own send ceiling would refuse
+	var peer [2]cipher.AEAD
+	for T := range peer {
+		blk, _ := aes.NewCipher(keys[T][:])
+		peer[T], _ = cipher.NewGCM(blk)
+	}
+	seal := func(T int, dst, ad, plaintext []byte, n uint64) []byte {
 		nonce := make([]byte, 12)
 		binary.BigEndian.PutUint64(nonce[4:], n)
-		return peerAEAD.Seal(dst, nonce, plaintext, ad)
+		return peer[T].Seal(dst, nonce, plaintext, ad)
 	}
-	var cs *nebula.ConnectionState
-	var g *gate
+	var cs [2]*nebula.ConnectionState
+	var ctl *gateCtl
 	threads := map[int]*thread{}
 	nb := make([]byte, 12)
 
-	build := func(c uint64, kind string) []byte {
-		switch kind {
-		case "valid", "forged", "relabel":
-			hdr := header.Encode(make([]byte, header.Len, 256), header.Version, header.Message, 0, 9, c)
-			n := c
-			if kind == "relabel" {
-				n = c + 1 // body sealed for another counter, header rewritten
-			}
-			out := seal(hdr, hdr, []byte("inner ip packet"), n)
-			if kind == "forged" {
-				out[len(out)-1] ^= 0x40
-			}
-			return out
-		default: // relay, relayforged: header + inner bytes authenticated as AD, tag only
-			hdr := header.Encode(make([]byte, header.Len, 256), header.Version, header.Message, header.MessageRelay, 9, c)
-			hdr = append(hdr, []byte("inner nebula packet, end-to-end encrypted")...)
-			out := seal(hdr, hdr, nil, c)
-			if kind == "relayforged" {
-				out[header.Len+3] ^= 0x01
-			}
-			return out
+	direct := func(T int, c uint64, kind string) []byte {
+		hdr := header.Encode(make([]byte, header.Len, 256), header.Version, header.Message, 0, 9, c)
+		n := c
+		if kind == "relabel" {
+			n = c + 1 // body sealed for another counter, header rewritten
 		}
+		out := seal(T, hdr, hdr, []byte("inner ip packet"), n)
+		if kind == "forged" {
+			out[len(out)-1] ^= 0x40
+		}
+		return out
+	}
+	// header + carried bytes authenticated as AD, tag only
+	envelope := func(T int, c uint64, carried []byte, forged bool) []byte {
+		hdr := header.Encode(make([]byte, header.Len, 512), header.Version, header.Message, header.MessageRelay, 9, c)
+		hdr = append(hdr, carried...)
+		out := seal(T, hdr, hdr, nil, c)
+		if forged {
+			out[header.Len+3] ^= 0x01
+		}
+		return out
+	}
+	newThread := func(layers []layer) *thread {
+		return &thread{layers: layers, nb: make([]byte, 12), go1: make(chan struct{}), go2: make(chan struct{}),
+			goNext: make(chan struct{}), auth: make(chan bool), passed: make(chan int), done: make(chan string, 1)}
 	}
 
-	// the real receive function for this packet; canonical result
-	receive := func(th *thread, nb []byte) string {
-		var err error
-		if th.relay {
-			err = cs.VerifyRelay(l, th.ctr, th.pkt, nb)
-		} else {
-			var out []byte
-			p := append([]byte(nil), th.pkt...) // Decrypt writes the plaintext over the packet
-			out, err = cs.Decrypt(l, th.ctr, p, nb)
-			if err == nil && string(out) != "inner ip packet" {
-				return "delivered-wrong-plaintext"
+	// receive is the dispatch of readOutsidePackets / handleOutsideRelayPacket reduced to the replay
+	// logic: VerifyRelay or Decrypt on the tunnel the layer arrived on; after a relay envelope passed, the
+	// carried packet is parsed and handled on its own tunnel. park (may be nil) is called between layers.
+	receive := func(th *thread, nb []byte, park func(li int)) string {
+		for li, ly := range th.layers {
+			var err error
+			ctr := ly.ctr
+			if li > 0 {
+				// the counter of the carried packet is read from its own header, as readOutsidePackets does
+				var h header.H
+				if h.Parse(ly.pkt) != nil {
+					return fmt.Sprintf("malformed@%d", li)
+				}
+				ctr = h.MessageCounter
+			}
+			if ly.relay {
+				err = cs[ly.tunnel].VerifyRelay(l, ctr, ly.pkt, nb)
+			} else {
+				var out []byte
+				p := append([]byte(nil), ly.pkt...) // Decrypt writes the plaintext over the packet
+				out, err = cs[ly.tunnel].Decrypt(l, ctr, p, nb)
+				if err == nil && string(out) != "inner ip packet" {
+					return fmt.Sprintf("delivered-wrong-plaintext@%d", li)
+				}
+			}
+			switch err {
+			case nil:
+			case nebula.ErrAlreadySeen:
+				return fmt.Sprintf("seen@%d", li)
+			default:
+				return fmt.Sprintf("auth:fail@%d", li)
+			}
+			if li+1 < len(th.layers) && park != nil {
+				park(li)
 			}
 		}
-		switch err {
-		case nil:
-			return "delivered"
-		case nebula.ErrAlreadySeen:
-			return "seen"
-		}
-		return "auth:fail"
+		return "delivered"
 	}
 
 	return func(a []string) string {
 		switch a[0] {
 		case "reset":
-			g = &gate{inner: mk(), entered: make(chan *thread)}
-			cs = nebula.VerifDecryptNewCS(g, hlib.Atou(a[1]))
+			ctl = &gateCtl{entered: make(chan *thread)}
+			for T := range cs {
+				cs[T] = nebula.VerifDecryptNewCS(&gate{inner: mk(T), ctl: ctl}, hlib.Atou(a[1]))
+			}
 			threads = map[int]*thread{}
 			return "ok"
 		case "pkt":
 			c := hlib.Atou(a[2])
-			threads[hlib.Atoi(a[1])] = &thread{ctr: c, relay: strings.HasPrefix(a[3], "relay"), pkt: build(c, a[3]),
-				nb: make([]byte, 12), go1: make(chan struct{}), go2: make(chan struct{}), auth: make(chan bool), done: make(chan string, 1)}
+			if strings.HasPrefix(a[3], "relay") {
+				threads[hlib.Atoi(a[1])] = newThread([]layer{{0, c, true, envelope(0, c, []byte("inner nebula packet, end-to-end encrypted"), a[3] == "relayforged")}})
+			} else {
+				threads[hlib.Atoi(a[1])] = newThread([]layer{{0, c, false, direct(0, c, a[3])}})
+			}
+			return "ok"
+		case "npkt":
+			cr, ce := hlib.Atou(a[2]), hlib.Atou(a[3])
+			kind := "valid"
+			if a[4] == "innerforged" {
+				kind = "forged"
+			}
+			inner := direct(0, ce, kind)
+			outer := envelope(1, cr, inner, a[4] == "outerforged")
+			// what handleOutsideRelayPacket hands to the recursive readOutsidePackets call
+			carried := outer[header.Len : len(outer)-16]
+			threads[hlib.Atoi(a[1])] = newThread([]layer{{1, cr, true, outer}, {0, ce, false, carried}})
 			return "ok"
 		case "burst":
-			if cs == nil {
+			if cs[0] == nil {
 				return "bad-op"
 			}
 			t0, from, cnt := hlib.Atoi(a[1]), hlib.Atou(a[2]), hlib.Atoi(a[3])
-			g.cur = nil
+			ctl.cur = nil
 			k := 0
 			for i := 0; i < cnt; i++ {
 				c := from + uint64(i)
-				th := &thread{ctr: c, pkt: build(c, "valid"), pc: 3}
+				th := &thread{layers: []layer{{0, c, false, direct(0, c, "valid")}}, fin: true}
 				threads[t0+i] = th
-				if receive(th, nb) == "delivered" {
+				if receive(th, nb, nil) == "delivered" {
 					k++
 				}
 			}
 			return fmt.Sprintf("delivered=%d", k)
 		case "dump":
-			if cs == nil {
+			if cs[0] == nil {
 				return "bad-op"
 			}
-			cur, words := nebula.VerifBitsState(nebula.VerifDecryptWindow(cs))
+			T := 0
+			if len(a) > 1 {
+				T = hlib.Atoi(a[1])
+			}
+			cur, words := nebula.VerifBitsState(nebula.VerifDecryptWindow(cs[T]))
 			var sb strings.Builder
 			fmt.Fprintf(&sb, "%d ", cur)
 			for _, w := range words {
@@ -354,45 +449,62 @@ func newExec(t *testing.T) func([]string) string {
 			}
 			return sb.String()
 		}
-		if cs == nil || len(a) < 2 {
+		if cs[0] == nil || len(a) < 2 {
 			return "bad-op"
 		}
 		th := threads[hlib.Atoi(a[1])]
 		if th == nil {
 			return "bad-op"
 		}
+		// wait for the goroutine of th to park at the entry of the next DecryptDanger or to finish
+		awaitCheck := func() string {
+			select {
+			case <-ctl.entered:
+				th.pc = 1
+				return "check:ok"
+			case r := <-th.done:
+				th.fin = true
+				if r == fmt.Sprintf("seen@%d", th.li) {
+					return "check:seen"
+				}
+				return "finished-without-open:" + r
+			case <-time.After(hang):
+				th.fin = true
+				return "hang"
+			}
+		}
 		switch a[0] {
 		case "step":
+			if th.fin {
+				return "noop"
+			}
+			ctl.cur = th
 			switch th.pc {
-			case 0: // start the goroutine; it runs the first critical section
-				g.cur = th
-				go func() { th.done <- receive(th, th.nb) }()
-				select {
-				case <-g.entered:
-					th.pc = 1
-					return "check:ok"
-				case r := <-th.done:
-					th.pc = 3
-					if r == "seen" {
-						return "check:seen"
-					}
-					return "finished-without-open:" + r
-				case <-time.After(hang):
-					th.pc = 3
-					return "hang"
+			case 0:
+				if th.li == 0 {
+					// start the goroutine; it runs the first critical section
+					go func() {
+						th.done <- receive(th, th.nb, func(li int) {
+							th.passed <- li
+							<-th.goNext
+						})
+					}()
+				} else {
+					// let the parked goroutine go on to the carried packet
+					th.goNext <- struct{}{}
 				}
+				return awaitCheck()
 			case 1: // the AEAD open
-				g.cur = th
 				th.go1 <- struct{}{}
 				if <-th.auth {
 					th.pc = 2
 					return "auth:ok"
 				}
 				th.go2 <- struct{}{}
-				th.pc = 3
+				th.fin = true
 				select {
 				case r := <-th.done:
-					if r == "auth:fail" {
+					if r == fmt.Sprintf("auth:fail@%d", th.li) {
 						return "auth:fail"
 					}
 					return "auth-failed-but:" + r
@@ -400,27 +512,37 @@ func newExec(t *testing.T) func([]string) string {
 					return "hang"
 				}
 			case 2: // return from DecryptDanger; the goroutine runs the second critical section
-				g.cur = th
 				th.go2 <- struct{}{}
-				th.pc = 3
 				select {
+				case li := <-th.passed:
+					if li != th.li {
+						return fmt.Sprintf("passed-layer-%d", li)
+					}
+					th.li++
+					th.pc = 0
+					return "delivered"
 				case r := <-th.done:
-					if r == "seen" {
+					th.fin = true
+					if r == fmt.Sprintf("seen@%d", th.li) {
 						return "update:seen"
 					}
-					return r
+					if r == "delivered" && th.li+1 == len(th.layers) {
+						return "delivered"
+					}
+					return "finished:" + r
 				case <-time.After(hang):
+					th.fin = true
 					return "hang"
 				}
 			}
 			return "noop"
 		case "full":
-			if th.pc != 0 {
+			if th.fin || th.li != 0 || th.pc != 0 {
 				return "noop"
 			}
-			th.pc = 3
-			g.cur = nil
-			return receive(th, nb)
+			th.fin = true
+			ctl.cur = nil
+			return receive(th, nb, nil)
 		}
 		return "bad-op"
 	}
